@@ -242,7 +242,7 @@ def run(ctx):
     env.close()
 
 
-def time_addressing(ctx, c, d, reps, init_dd, limit):
+def time_addressing(ctx, c, d, reps, init_dd, limit, report_overrun=True):
     """the static manifest with SegmentTimeline addressing: every $Time$ URL it spells out is fetched and must carry the
     advertised t and d; the k-th entry of a Representation must be the very segment the number route serves as
     start_number + k - 1 (same payload, same decode time), which the model decides (MpsModel.mps_number)"""
@@ -274,6 +274,8 @@ def time_addressing(ctx, c, d, reps, init_dd, limit):
             inp = {'def': d, 'url': url, 'entry': k + 1}
             if rn.status_code >= 500:
                 continue                     # the number loop above reports it (period-at-end-of-source)
+            if rn.status_code != 200 and not report_overrun:
+                continue
             if rn.status_code != 200:
                 # the Period plays the source from an offset, the timeline lists the whole source: the entries past
                 # (source segments - offset) name media no route serves
@@ -307,6 +309,30 @@ def time_addressing(ctx, c, d, reps, init_dd, limit):
                 continue
             ctx.nontriv(url)
 
+
+def time_route_suite(ctx, ndefs, limit):
+    """C02 on the multi-period route: $Time$=t must carry decode time t and be the segment the number route serves
+    (entries past the end of the source are C12's business and are not reported here)"""
+    import logging
+    from ..appenv import AppEnv
+    env = AppEnv(ctx.workdir + '/mpstime', streams=('bbb', 'tears'))
+    logging.disable(logging.CRITICAL)
+    c = env.client()
+    reps = {}
+    for s in ('bbb', 'tears'):
+        for name in (VIDEO[s], AUDIO[s]):
+            reps[name] = seghttp.rep_of(env, name)
+    for di in range(ndefs):
+        d = gen_def(ctx.rng, 900 + di)
+        pks = env.add_mps(d['name'], d['periods'])
+        init_dd = {}
+        for p, ppk in zip(d['periods'], pks):
+            for name in [VIDEO[p['stream']]] + ([AUDIO[p['stream']]] if len(p['tracks']) > 1 else []):
+                ri = c.get('/mps/vod/%s/%d/%s/init.%s' % (d['name'], ppk, name, seghttp.EXT[reps[name][1]]))
+                if ri.status_code == 200:
+                    init_dd['/mps/vod/%s/%d/%s' % (d['name'], ppk, name)] = boxwalk.trex_default_duration(boxwalk.Root(ri.data))
+        time_addressing(ctx, c, d, reps, init_dd, limit, report_overrun=False)
+    env.close()
 
 def check_contiguous(ctx, listed, inp):
     for a, b in zip(listed, listed[1:]):
